@@ -39,7 +39,7 @@ def font_bytes():
 # installed once per worker process (hooks cannot be removed); records only while _AUDIT['on'].
 
 _AUDIT = {'installed': False, 'on': False, 'events': [], 'stage': ''}
-_WATCH = ('open', 'socket.connect', 'socket.getaddrinfo', 'socket.gethostbyname', 'socket.bind',
+_WATCH = ('open', 'os.rmdir', 'socket.connect', 'socket.getaddrinfo', 'socket.gethostbyname', 'socket.bind',
           'urllib.Request', 'os.scandir', 'os.listdir', 'subprocess.Popen', 'os.system', 'ftplib.connect',
           'http.client.connect', 'smtplib.connect', 'glob.glob', 'os.mkdir', 'os.remove', 'os.rename',
           'shutil.rmtree', 'tempfile.mkdtemp', 'tempfile.mkstemp', 'pathlib.Path.glob', 'os.chdir')
@@ -51,12 +51,16 @@ def _hook(event, args):
     if event in _WATCH:
         try:
             a0 = args[0] if args else None
+            if isinstance(a0, os.PathLike):
+                a0 = os.fspath(a0)
             if isinstance(a0, bytes):
                 a0 = a0.decode('utf-8', 'replace')
             elif not isinstance(a0, (str, int, type(None))):
                 a0 = repr(a0)
             extra = None
             if event == 'open' and len(args) > 1:
+                extra = args[1]
+            elif event in ('os.remove', 'os.rmdir', 'os.mkdir') and len(args) > 1:
                 extra = args[1]
             elif event.startswith('socket.') and len(args) > 1:
                 extra = repr(args[1])
@@ -538,8 +542,15 @@ def _allowed_open(path):
 
 def judge_audit(events):
     bad = []
+    cleaning = False
     for stage, ev, a0, extra in events:
-        if ev in ('open', 'os.scandir', 'os.listdir', 'os.mkdir', 'os.remove', 'os.rename', 'shutil.rmtree',
+        if ev == 'shutil.rmtree' and _allowed_open(a0):
+            cleaning = True           # FontConfiguration.__del__ removes its private font directory
+            continue
+        if cleaning and ev in ('os.remove', 'os.rmdir', 'os.scandir', 'os.listdir', 'open') and (
+                isinstance(a0, int) or (isinstance(a0, str) and '/' not in a0 and isinstance(extra, int) and extra >= 0)):
+            continue                  # rmtree works relative to directory descriptors
+        if ev in ('open', 'os.scandir', 'os.listdir', 'os.mkdir', 'os.remove', 'os.rmdir', 'os.rename', 'shutil.rmtree',
                   'tempfile.mkdtemp', 'tempfile.mkstemp', 'glob.glob', 'pathlib.Path.glob'):
             if ev in ('tempfile.mkdtemp', 'tempfile.mkstemp'):
                 continue            # a0 is the suffix/prefix, the directory shows up in os.mkdir / open
@@ -607,6 +618,7 @@ def render_case(case):
             res['calls_render'] = rec['calls'][:ncalls_render]
             res['calls_write'] = rec['calls'][ncalls_render:]
             res['pdf'] = pdf_facts(pdf)
+            res['calls'] = list(rec['calls'])
             if case.get('second_render') and cache is not None:
                 # same cache, second render: cached images must not be fetched again
                 n0 = len(rec['calls'])
@@ -624,7 +636,7 @@ def render_case(case):
                     site = '%s:%s' % (os.path.relpath(fr.filename, REPO), fr.name)
                     break
             res['exc'] = {'type': type(exc).__name__, 'msg': str(exc)[:200], 'stage': _AUDIT['stage'], 'site': site}
-    res['calls'] = rec['calls']
+    res.setdefault('calls', list(rec['calls']))
     res['opened'], res['closed'] = rec['opened'], rec['closed']
     res['unserved'], res['extra_args'] = rec['unserved'], rec['extra_args']
     res['logs'] = [l for l in logs.records if l[0] in ('WARNING', 'ERROR', 'CRITICAL')]
